@@ -42,9 +42,10 @@ def demo_info(d):
 
 def validate(pid, k, d, log):
     res = {}
-    val = "/tmp/val/repo"
-    tgt = "CARGO_TARGET_DIR=/tmp/val/target "
-    lock = open("/tmp/val/lock", "w"); fcntl.flock(lock, fcntl.LOCK_EX)
+    VAL = os.environ.get("SEEDRUN_VAL", "/tmp/val")
+    val = VAL + "/repo"
+    tgt = "CARGO_TARGET_DIR=%s/target " % VAL
+    lock = open(VAL + "/lock", "w"); fcntl.flock(lock, fcntl.LOCK_EX)
     try:
         sh("git checkout -q --detach main && git checkout -q -- . && git clean -fdq", cwd=val)
         path, cmd = demo_info(d)
